@@ -31,6 +31,19 @@ for key, proof in getattr(spec,'PROOFS',{}).items():
             anchor, occ = anchor.rsplit('#',1); occ=int(occ)
         i,k = fn_span(s, fn)
         seg = s[i:k]
+        if anchor == '$END':
+            seg = seg[:-1] + proof + '\n    }'
+            s = s[:i]+seg+s[k:]
+            continue
+        if anchor == '$TAILMATCH':
+            # R-tail: `match e {..}` in tail position -> `let ret_ = match e {..}; proof; ret_`
+            m = re.search(r'\n        match ', seg)
+            assert m and seg.count('\n        match ')==1
+            seg = seg[:m.start()] + '\n        let ret_ = match ' + seg[m.end():]
+            assert seg.endswith('\n        }\n    }')
+            seg = seg[:-len('\n        }\n    }')] + '\n        };\n' + proof + '\n        ret_\n    }'
+            s = s[:i]+seg+s[k:]
+            continue
         pos=-1
         for _ in range(occ+1):
             pos = seg.index(anchor, pos+1)
